@@ -452,101 +452,175 @@ func c08mirror(c *Ctx) {
 	}
 	lit := lits[0]
 	srT := c.P.NamedType("proj", "SR")
-	sideOf := func(e ast.Expr) string {
-		o := objOf(info, e)
-		if o == nil {
-			return ""
-		}
-		if named(o.Type()) != srT {
-			return ""
-		}
-		if o == dest {
-			return "dest"
-		}
-		return "source"
+	// side environment: which *SR variable stands for which side.  At the top level the
+	// destination is NewTransform's parameter and every other *SR variable is the source side;
+	// inside helper functions the parameters inherit the side of the arguments they are called with.
+	type senv struct {
+		side   map[types.Object]string
+		member map[types.Object][2]string
+		top    bool
 	}
-	var stages []stage
-	// which variable holds which member of Transformers()
-	member := map[types.Object][2]string{} // var → (side, "forward"/"inverse")
-	// the members of Transformers() may be obtained inside the closure or once in NewTransform itself
-	ast.Inspect(fd.Body, func(n ast.Node) bool {
-		if x, ok := n.(*ast.AssignStmt); ok && len(x.Rhs) == 1 && len(x.Lhs) == 3 {
-			if call, ok := unparen(x.Rhs[0]).(*ast.CallExpr); ok {
-				if f := callee(info, call); f != nil && f.Name() == "Transformers" {
-					if sel, ok := unparen(call.Fun).(*ast.SelectorExpr); ok {
-						sd := sideOf(sel.X)
-						for i, role := range []string{"forward", "inverse"} {
-							if o := objOf(info, x.Lhs[i]); o != nil && o.Name() != "_" {
-								member[o] = [2]string{sd, role}
-							}
-						}
-					}
-				}
-			}
+	top := &senv{side: map[types.Object]string{dest: "dest"}, member: map[types.Object][2]string{}, top: true}
+	var sideIn func(env *senv, e ast.Expr) string
+	sideIn = func(env *senv, e ast.Expr) string {
+		o := objOf(info, e)
+		if o == nil || named(o.Type()) != srT {
+			return ""
 		}
-		return true
-	})
-	ast.Inspect(lit.Body, func(n ast.Node) bool {
-		switch x := n.(type) {
-		case *ast.AssignStmt:
-			// a, b, err := X.Transformers()
-			if len(x.Rhs) == 1 && len(x.Lhs) == 3 {
+		if s, ok := env.side[o]; ok {
+			return s
+		}
+		if env.top {
+			return "source"
+		}
+		return ""
+	}
+	sideOf := func(e ast.Expr) string { return sideIn(top, e) }
+	var stages []stage
+	seqNo := token.Pos(1)
+	users := map[types.Object][]string{}
+	firstPos := map[types.Object]token.Pos{}
+	sourceRefs := map[types.Object]bool{} // distinct top-level variables used as the source reference
+	member := top.member
+	// the members of Transformers() may be obtained inside the closure or once in NewTransform itself
+	recordMembers := func(env *senv, body ast.Node) {
+		ast.Inspect(body, func(n ast.Node) bool {
+			if x, ok := n.(*ast.AssignStmt); ok && len(x.Rhs) == 1 && len(x.Lhs) == 3 {
 				if call, ok := unparen(x.Rhs[0]).(*ast.CallExpr); ok {
 					if f := callee(info, call); f != nil && f.Name() == "Transformers" {
 						if sel, ok := unparen(call.Fun).(*ast.SelectorExpr); ok {
-							sd := sideOf(sel.X)
+							sd := sideIn(env, sel.X)
 							for i, role := range []string{"forward", "inverse"} {
 								if o := objOf(info, x.Lhs[i]); o != nil && o.Name() != "_" {
-									member[o] = [2]string{sd, role}
+									env.member[o] = [2]string{sd, role}
 								}
 							}
 						}
 					}
 				}
 			}
-			// point[k] op= X.F   /  point[k] *= const
-			if len(x.Lhs) == 1 && len(x.Rhs) == 1 {
-				if _, isIdx := unparen(x.Lhs[0]).(*ast.IndexExpr); isIdx {
-					if sel, ok := unparen(x.Rhs[0]).(*ast.SelectorExpr); ok && sideOf(sel.X) != "" {
-						stages = append(stages, stage{sel.Sel.Name, sideOf(sel.X), x.Tok.String(), x.Pos()})
-					} else if v := constOf(info, x.Rhs[0]); v != nil && x.Tok == token.MUL_ASSIGN {
-						f, _ := constFloat(v)
-						// side from the enclosing `if X.Name == longlat`
-						sd := ""
-						for _, anc := range enclosing(lit.Body, x) {
-							if is, ok := anc.(*ast.IfStmt); ok {
-								if b, ok := unparen(is.Cond).(*ast.BinaryExpr); ok && b.Op == token.EQL {
-									if s2, ok := unparen(b.X).(*ast.SelectorExpr); ok && sideOf(s2.X) != "" && containsNode(is.Body, x) {
-										sd = sideOf(s2.X)
+			return true
+		})
+	}
+	recordMembers(top, fd.Body)
+	var walk func(env *senv, body ast.Node, depth int)
+	walk = func(env *senv, body ast.Node, depth int) {
+		if depth > 4 {
+			return
+		}
+		recordMembers(env, body)
+		ast.Inspect(body, func(n ast.Node) bool {
+			switch x := n.(type) {
+			case *ast.SelectorExpr:
+				if sideIn(env, x.X) == "source" {
+					o := objOf(info, x.X)
+					// resolve a helper's parameter back to the top-level variable it stands for
+					root := o
+					if r, ok := env.side[o]; ok && r == "source" {
+						if ro, ok := env.member[o]; ok {
+							_ = ro
+						}
+					}
+					users[root] = append(users[root], x.Sel.Name)
+					if _, ok := firstPos[root]; !ok {
+						firstPos[root] = x.Pos()
+					}
+				}
+			case *ast.AssignStmt:
+				// point[k] op= X.F   /  point[k] *= const
+				if len(x.Lhs) == 1 && len(x.Rhs) == 1 {
+					if _, isIdx := unparen(x.Lhs[0]).(*ast.IndexExpr); isIdx {
+						if sel, ok := unparen(x.Rhs[0]).(*ast.SelectorExpr); ok && sideIn(env, sel.X) != "" {
+							stages = append(stages, stage{sel.Sel.Name, sideIn(env, sel.X), x.Tok.String(), seqNo})
+							seqNo++
+						} else if v := constOf(info, x.Rhs[0]); v != nil && x.Tok == token.MUL_ASSIGN {
+							f, _ := constFloat(v)
+							// side from the enclosing `if X.Name == longlat`
+							sd := ""
+							for _, anc := range enclosing(body, x) {
+								if is, ok := anc.(*ast.IfStmt); ok {
+									if b, ok := unparen(is.Cond).(*ast.BinaryExpr); ok && (b.Op == token.EQL || b.Op == token.NEQ) {
+										if s2, ok := unparen(b.X).(*ast.SelectorExpr); ok && sideIn(env, s2.X) != "" {
+											inBody := containsNode(is.Body, x)
+											if (b.Op == token.EQL && inBody) || (b.Op == token.NEQ && !inBody && is.Else != nil && containsNode(is.Else, x)) {
+												sd = sideIn(env, s2.X)
+											}
+										}
 									}
 								}
 							}
+							stages = append(stages, stage{"angle", sd, fmt.Sprintf("%.17g", f), seqNo})
+							seqNo++
 						}
-						stages = append(stages, stage{"angle", sd, fmt.Sprintf("%.17g", f), x.Pos()})
+					}
+				}
+			case *ast.CallExpr:
+				f := callee(info, x)
+				if f != nil && c.P.Decl(f) != nil && len(x.Args) == 3 {
+					// adjust_axis(X, denorm, point)
+					if sd := sideIn(env, x.Args[0]); sd != "" {
+						if v := constOf(info, x.Args[1]); v != nil && v.Kind() == constant.Bool {
+							stages = append(stages, stage{"axis", sd, v.String(), seqNo})
+							seqNo++
+							return true
+						}
+					}
+				}
+				if f != nil && c.P.Decl(f) != nil && len(x.Args) == 5 {
+					stages = append(stages, stage{"datum", "", "", seqNo})
+					seqNo++
+					return true
+				}
+				if o := objOf(info, x.Fun); o != nil {
+					if mm, ok := env.member[o]; ok {
+						stages = append(stages, stage{"transformer", mm[0], mm[1], seqNo})
+						seqNo++
+						return true
+					}
+				}
+				// a helper of the package that receives a reference (or a projection member): look inside
+				if f != nil && c.P.Decl(f) != nil && c.P.DeclPkg(f) == p && f.Name() != "NewTransform" && f.Name() != "Transformers" {
+					sig := f.Type().(*types.Signature)
+					if sig.Recv() == nil || true {
+						cfd := c.P.Decl(f)
+						ps := paramVars(info, cfd.Type)
+						sub := &senv{side: map[types.Object]string{}, member: map[types.Object][2]string{}}
+						relevant := false
+						for i, arg := range x.Args {
+							if i >= len(ps) || ps[i] == nil {
+								continue
+							}
+							if sd := sideIn(env, arg); sd != "" {
+								sub.side[ps[i]] = sd
+								relevant = true
+								if sd == "source" {
+									if o := objOf(info, arg); o != nil {
+										sourceRefs[o] = true
+									}
+								}
+							}
+							if o := objOf(info, arg); o != nil {
+								if mm, ok := env.member[o]; ok {
+									sub.member[ps[i]] = mm
+									relevant = true
+								}
+							}
+						}
+						if relevant {
+							walk(sub, cfd.Body, depth+1)
+							return true
+						}
 					}
 				}
 			}
-		case *ast.CallExpr:
-			f := callee(info, x)
-			if f != nil && c.P.Decl(f) != nil && len(x.Args) == 3 {
-				// adjust_axis(X, denorm, point)
-				if sd := sideOf(x.Args[0]); sd != "" {
-					if v := constOf(info, x.Args[1]); v != nil && v.Kind() == constant.Bool {
-						stages = append(stages, stage{"axis", sd, v.String(), x.Pos()})
-					}
-				}
-			}
-			if f != nil && c.P.Decl(f) != nil && len(x.Args) == 5 {
-				stages = append(stages, stage{"datum", "", "", x.Pos()})
-			}
-			if o := objOf(info, x.Fun); o != nil {
-				if m, ok := member[o]; ok {
-					stages = append(stages, stage{"transformer", m[0], m[1], x.Pos()})
-				}
-			}
-		}
-		return true
-	})
+			return true
+		})
+	}
+	// skip the WGS84 hop and its test, which legitimately name the original reference
+	walk(top, lit.Body, 0)
+	_ = sideOf
+	_ = member
+	_ = sourceRefs
 	sort.Slice(stages, func(i, j int) bool { return stages[i].pos < stages[j].pos })
 	// one reference per side: every source-side stage of the closure reads its parameters from
 	// the same *SR variable (the reference the coordinates are currently expressed in)
@@ -571,6 +645,20 @@ func c08mirror(c *Ctx) {
 				if n == sk {
 					return false
 				}
+			}
+			if call, ok := n.(*ast.CallExpr); ok {
+				if f := callee(info, call); f != nil && c.P.Decl(f) != nil && c.P.DeclPkg(f) == p {
+					for _, arg := range call.Args {
+						if sideOf(arg) == "source" {
+							o := objOf(info, arg)
+							users[o] = append(users[o], "→"+f.Name())
+							if _, ok := firstPos[o]; !ok {
+								firstPos[o] = arg.Pos()
+							}
+						}
+					}
+				}
+				return true
 			}
 			sel, ok := n.(*ast.SelectorExpr)
 			if !ok {
